@@ -64,6 +64,16 @@ def concretise(cls, rnd, pool):
         return 'a=1;' + q(v) + ';b=2', ''
     if cls == 'encoded_amp':
         return 'number=' + urllib.parse.quote(v + '&number=x'), ''
+    if cls == 'many_fields':
+        # a realistic long query: the number among campaign / tracking parameters (limits on the number of fields show here)
+        n = rnd.choice([9, 12, 33, 101, 1001])
+        extra = ['utm_%d=x%d' % (i, i) for i in range(n)]
+        k = rnd.randrange(len(extra) + 1)
+        return '&'.join(extra[:k] + [q(v)] + extra[k:]), ''
+    if cls == 'many_separators':
+        return '&' * rnd.choice([9, 40, 1500]) + q(v) + '&' * rnd.choice([1, 9, 700]) + '=&=&', ''
+    if cls == 'many_numbers':
+        return '&'.join(q(rnd.choice(pool)) for _ in range(rnd.choice([9, 20, 150]))), ''
     if cls == 'unicode':
         return q(v + rnd.choice(['K', '\xdf', '\U0001f600', 'İ', ' '])), ''
     raise KeyError(cls)
@@ -182,7 +192,7 @@ def main():
     rej = chk.validate('Trace_Wsgi', shards)
     chk.report(rej)
     return chk.finish(samples=[idx[0], idx[len(idx) // 2], idx[-1]], distinct_nontrivial=len(evs),
-                      rule='requests of TLC-generated sequences (4 requests over 17 query classes x html/ajax, one fresh interpreter per sequence, every '
+                      rule='requests of TLC-generated sequences (4 requests over 20 query classes x html/ajax, one fresh interpreter per sequence, every '
                            'non-first request paired with the same request served first by a fresh interpreter) + every picked corpus number of '
                            'every module in both modes',
                       extra={'sequences': len(seqs), 'corpus_requests': len(flat), 'processes': len(jobs)})
